@@ -114,7 +114,7 @@ def cases(O):
                 tail = "//# sourceMappingURL=x.js.map"
                 fs[os.path.join(folder, "x.js.map")] = {"data": json.dumps(omap)}
             if kind == "two":
-                code = code + "\n//# sourceMappingURL=earlier-missing.map"
+                code = code + rng.choice(["", "", " // end", " /* c */"]) + "\n//# sourceMappingURL=earlier-missing.map"
         elif kind == "rel":
             tail = "//# sourceMappingURL=maps/t.js.map"
             fs[os.path.join(folder, "maps/t.js.map")] = {"data": json.dumps(omap)}
@@ -138,7 +138,13 @@ def cases(O):
             fs[os.path.join(folder, "idx.map")] = {"data": json.dumps({"version": 3, "sections": [{"offset": {"line": 0, "column": 0}, "map": omap}]})}
         elif kind == "empty":
             tail = "//# sourceMappingURL="
-        full = code + ("\n" + tail + "\n" if tail else "\n")
+        # other comments around the reference (swc keeps every comment that follows the same token in one entry of its store):
+        # they are text of the program like any other
+        before, after = "", ""
+        if tail and i % 2 == 0 and kind != "two":
+            before = rng.choice(["", " // end of module f", " /* public api */", "\n// end of module f", "\n/* eslint-disable */\n// two", " /*# not a sourceMappingURL */"])
+            after = rng.choice(["", "", "\n// generated by tsc 4.2", "\n/* eof */"])
+        full = code + before + ("\n" + tail + after + "\n" if tail else "\n")
         lines_ = code.split("\n")
         if tail and len(lines_) > 2 and i % 3 == 0 and kind != "two":     # ("two": the other, unusable reference must stay the earlier one)
             # the reference does not have to be the last thing in the file: bundlers leave it in the middle, code follows
@@ -146,11 +152,16 @@ def cases(O):
             if not any("`" in l for l in lines_):      # never cut a multi-line template literal
                 # on the line of the token it trails (a comment on a line of its own belongs to the NEXT token, as a leading
                 # comment: the rewriter does not take it for the reference and rightly leaves it alone)
-                full = "\n".join(lines_[:j]) + " " + tail + "\n" + "\n".join(lines_[j:]) + "\n"
+                mid = rng.choice(["", "", "/* kept */ ", "/* a */ /* b */"]) if "//" not in lines_[j - 1] else ""
+                full = "\n".join(lines_[:j]) + " " + mid + tail + "\n" + "\n".join(lines_[j:]) + "\n"
         cfg = F.config_variants(rng) if rng.random() < 0.3 else vlib.default_config()
         cfg["chainSourceMap"] = rng.random() < 0.75
         cfg["comments"] = rng.random() < 0.5
-        cs.append({"id": "c10-%d-%s" % (i, kind), "config": cfg, "fs": fs, "calls": [{"code": full, "file": file}],
+        calls = [{"code": full, "file": file}]
+        if tail and cfg["comments"] and len(tail) > len("//# sourceMappingURL=") and full.count(tail) == 1:
+            # the twin: the same file without the reference(s); apart from the map, the rewriter has to produce the same text for both
+            calls.append({"code": full.replace(tail, "").replace("\n//# sourceMappingURL=earlier-missing.map", ""), "file": file, "twin": True})
+        cs.append({"id": "c10-%d-%s" % (i, kind), "config": cfg, "fs": fs, "calls": calls,
                    "opts": {"pieces": True, "reparse": True}, "kind": kind, "usable": usable, "omap": omap, "tail": tail})
     cs += E.finding_cases("C10", {"pieces": True, "reparse": True})
     return cs
@@ -162,7 +173,12 @@ def run(O, P):
     blocks, infos = [], []
     kinds = collections.Counter()
     for case, r, calls in results:
+        twin_body = None
+        if len(calls) > 1 and C.is_modified(calls[1][1]):
+            twin_body = calls[1][1]["result"]["content"].split(TRAILER)[0]
         for cin, cout, m in calls:
+            if cin.get("twin"):
+                continue
             O.evaluations += 1
             def bad(what, **extra):
                 O.violation(what, dict({"case": {k: v for k, v in C.one_call_case(case).items() if k not in ("omap",)}}, **extra))
@@ -194,6 +210,12 @@ def run(O, P):
                 if tl and len(tl) > len("//# sourceMappingURL=") and body.count(tl) != cin["code"].count(tl) - 1:
                     bad("with comments kept the text of the superseded sourceMappingURL comment occurs %d time(s) in the content, %d in the input (the comment itself must go, look-alike literals must stay)"
                         % (body.count(tl), cin["code"].count(tl))); continue
+                if twin_body is not None and body != twin_body:
+                    k = next((i for i, (x, y) in enumerate(zip(body, twin_body)) if x != y), min(len(body), len(twin_body)))
+                    bad("with comments kept, the text of the content differs from what the same file without the sourceMappingURL comment gives (other text than that comment was altered): ...%r vs ...%r"
+                        % (body[max(0, k - 60):k + 60], twin_body[max(0, k - 60):k + 60])); continue
+                if twin_body is not None:
+                    O.coverage["twin_text_comparisons"] = O.coverage.get("twin_text_comparisons", 0) + 1
             if m and m.get("roundtrip_ok") is False:
                 bad("the content does not re-parse to the printed tree (a literal or regular expression was altered?): %s / %s" % (
                     (m.get("roundtrip_diff_out") or "")[:160], (m.get("roundtrip_diff_reparsed") or "")[:160])); continue
